@@ -7,7 +7,7 @@ Traces == ndJsonDeserialize(IOEnv.TRACE_FILE)
 VARIABLES tid, verdict
 Verdict(t) ==
   LET c == t.case.c o == t.obs IN
-  IF o.res # "ok" THEN "regrid-raised@1"
+  IF o.res # "ok" THEN (IF MayRefuse(c) /\ o.res \in {"err:FinamDataError", "err:FinamMetaDataError"} THEN "ok" ELSE "regrid-raised@1")
   ELSE IF Len(o.vals) # N(c.dst) THEN "regrid-shape@1"
   ELSE IF \E p \in 1..N(c.dst) : TMask(c, p) /\ ~o.mask[p] THEN "masked-target-stays-masked@1"
   ELSE IF \E p \in 1..N(c.dst) :
